@@ -497,6 +497,20 @@ fn main() {
             let generic = if ngen > 0 && (engine == "tograph" || engine == "extract") { eng_circ::record_generic(engine, ngen, seed, &mut tr) } else { 0 };
             json!({"circuits": ncirc, "generic": generic})
         }
+        // the harness's enumeration of a diagram family, one `member` event each (bin/vlib.py family_agreement compares the
+        // set with the one TLC prints from mc/MC_Family.tla)
+        "family" => {
+            let mut n = 0usize;
+            for fam in args.iter().enumerate().filter(|(_, a)| *a == "--fam").map(|(i, _)| args[i + 1].clone()) {
+                let f = parse_family(&fam);
+                gens::enum_family(&f, |a| {
+                    tr.group();
+                    tr.emit(json!({"k": "member", "g": a}));
+                    n += 1;
+                });
+            }
+            json!({"members": n})
+        }
         "phase" => eng_phase::record(&args, seed, &mut tr),
         "f2" => eng_f2::record(&args, seed, &mut tr),
         "ranktree" => eng_ranktree::record(&args, seed, &mut tr),
